@@ -338,7 +338,7 @@ Engine MakeEngine()
     e.run = Run;
     e.describe = Describe;
     e.chunk = 1;
-    e.quick_runs = 400;
+    e.quick_runs = 1000;
     e.thorough_runs = 20000;
     e.quick_budget_s = 75;
     e.thorough_budget_s = 1200;
